@@ -304,6 +304,6 @@ func init() {
 		Floors: func(t string) map[string]int {
 			return map[string]int{"totp-enabled": 10, "totp-disabled": 3, "sms-enabled": 10, "regenerated": 5, "enrolment-route-gated": 20, "enrolment-route-after-email-authorisation": 10, "recovery-code-consumed": 5}
 		},
-		Assumptions: []string{"an SMS proof is 'a code the outbox delivered to the number in question'", "TOTP proofs are judged on the real clock within +-2 steps"},
+		Assumptions: []string{"an SMS proof is 'a code the outbox delivered to the number in question'", "TOTP proofs: current period +-1 on the virtual clock"},
 	})
 }
